@@ -418,7 +418,8 @@ class Representation(ObjectWithFields):
                 timeline_start, seg_start_time, origin_time, mod_segment, drift)
         else:
             timeline_start = 0
-            seg_start_time = 0
+            # a static presentation uses the decode times of the stored file
+            seg_start_time = self.start_time
             origin_time = 0
             mod_segment = 1
             drift = 0
@@ -502,7 +503,7 @@ class Representation(ObjectWithFields):
                 # (a time at or beyond the end of the track selects the
                 # number after the last segment)
                 segment_num = self.start_number + self.num_media_segments
-                start = 0
+                start = self.start_time
                 for idx, seg in enumerate(self.segments[1:]):
                     end = start + seg.duration
                     if segment_time < end:
